@@ -60,6 +60,7 @@ type c10peer struct {
 	lastID     string // request id of the previous exchange
 	dead       bool   // server closed / reset
 	pendingRst bool   // reset as soon as what was queued has been delivered
+	acceptAt   time.Time
 }
 
 func RunC10(ep *core.Episode) {
@@ -201,7 +202,14 @@ func RunC10(ep *core.Episode) {
 		b, _ := m.Encode()
 		return b
 	}
+	wcap := 0
+	if faulty && tp.Chance("wbackpressure", 1, 3) {
+		wcap = tp.Pick("wcap", 16, 64, 1000)
+	}
 	dialer.OnConnect = func(p *PeerConn) {
+		if wcap > 0 {
+			p.A.Out.Cap = wcap // the server accepts request bytes in pieces: Flush can block and time can pass inside it
+		}
 		pr := &c10peer{p: p}
 		peers[p.ID] = pr
 		peerList = append(peerList, pr)
@@ -355,6 +363,35 @@ func RunC10(ep *core.Episode) {
 		}
 	}))
 
+	// write backpressure: the server side accepts what the client wrote, piece by piece
+	S.AddSource(core.SourceFunc(func(add func(core.Event)) {
+		if wcap == 0 {
+			return
+		}
+		for _, pr := range peerList {
+			pr := pr
+			if k := pr.p.B.InflightTo(); k > 0 && !pr.dead {
+				if pr.acceptAt.IsZero() {
+					// a slow reader: the latency is drawn around the configured deadlines so that
+					// "accepted exactly when the budget runs out" is a common case, not an accident
+					d := tp.PickDur("acceptlat", 0, 0, 0, 150*time.Millisecond, 150*time.Millisecond-time.Microsecond, 150*time.Millisecond+time.Microsecond, 100*time.Millisecond, 20*time.Millisecond)
+					pr.acceptAt = time.Now().Add(d)
+					if d > 0 {
+						time.AfterFunc(d, S.Poke)
+					}
+				}
+				if time.Now().Before(pr.acceptAt) {
+					continue
+				}
+				add(core.Event{Key: fmt.Sprintf("accept k%d", pr.p.ID), Weight: 15, Apply: func() {
+					pr.p.B.AcceptFromWriter(k)
+					pr.acceptAt = time.Time{}
+					ep.Fault("write-backpressure")
+				}})
+			}
+		}
+	}))
+
 	// ---- callers ----
 	ncallers := 2 + tp.Choose("ncallers", 5)
 	var tasks []*core.Task
@@ -490,7 +527,9 @@ func RunC10(ep *core.Episode) {
 					switch {
 					case cl.timeoutT > 0:
 						per = cl.timeoutT
-					case readT > 0:
+					case readT > 0 && wcap == 0:
+						// a read timeout alone does not bound a peer that stalls while accepting
+						// the request (no write timeout is configured in these episodes)
 						per = readT
 					}
 					if per > 0 {
@@ -644,9 +683,10 @@ func RunC10(ep *core.Episode) {
 	// bounded liveness: within 5s of simulated time after the last fault every
 	// goroutine hertz started has finished its work (dials, hand-overs)
 	settled := false
+	S.MaxSteps = S.Steps + 4000
 	for i := 0; i < 500; i++ {
 		if r := S.Run(func() bool { return !S.AnyRunnable() }); r == core.RunStepCap {
-			ep.Infra = "step cap at quiescence"
+			ep.Fail("C10.stuck", "pool keeps working without settling after all calls returned (pool %+v, parked %v)", hc.ConnPoolState(), S.ParkedSites())
 			return
 		}
 		if ep.Failed() {
@@ -685,9 +725,12 @@ func RunC10(ep *core.Episode) {
 	}
 	// reaper: idle connections are closed after MaxIdleConnDuration
 	if st.TotalConnNum > 0 {
+		S.MaxSteps = S.Steps + 4000
 		for i := 0; i < 6 && hc.ConnPoolState().TotalConnNum > 0; i++ {
 			S.Sleep(idleDur + time.Millisecond)
-			S.Run(func() bool { return !S.AnyRunnable() })
+			if r := S.Run(func() bool { return !S.AnyRunnable() }); r == core.RunStepCap {
+				break
+			}
 		}
 		st = hc.ConnPoolState()
 		if st.TotalConnNum != 0 || openConns() != 0 {
